@@ -156,7 +156,8 @@ def register(reg):
         self = PObj(repo_class(f"{SIM}:Simulation"), tag="simulation")
         scene = PObj("Scene", tag="scene")
         scene.fields["dynamicScenario"] = top
-        self.fields.update(scene=scene, objects=PList(objs), agents=PList([objs[0]]), currentTime=0, verbosity=0, screen=None, records=models_spec.PDefaultDict(BuiltinFn("list", lambda: PList())))
+        already = MD.pick(I, 2, "object 1: has just acquired a behavior / is already an agent") == 1
+        self.fields.update(scene=scene, objects=PList(objs), agents=PList([objs[0], objs[1]] if already else [objs[0]]), currentTime=0, verbosity=0, screen=None, records=models_spec.PDefaultDict(BuiltinFn("list", lambda: PList())))
         self.fields["trajectory"] = MD.CountedList(0, "trajectory")
         self.fields["actionSequence"] = MD.CountedList(0, "actionSequence")
         self.fields["currentState"] = BuiltinFn("currentState", lambda: ("state at", self.fields["currentTime"]))
@@ -338,8 +339,35 @@ def register(reg):
     def _choice(I, label):
         return 1 in MD.picked(I, label)
 
+    def carried(nm):
+        """Frame of the loop for the local `nm`: whatever an earlier iteration may have left in it.  Locals first bound
+        inside the loop stay as they are (every iteration binds them before use); a local that exists at loop entry
+        (a cache carried from step to step) becomes an arbitrary value of its kind -- for None-initialised ones:
+        None, or any schedule an earlier step may have produced (all orders of the agents)."""
+
+        def typ(I, env):
+            try:
+                cur = env.lookup(nm)
+            except KeyError:
+                return Opaque(f"<{nm} of an earlier iteration>")
+            self, top, sub, objs, ms = I._run_world
+            if isinstance(cur, bool):
+                return I.eng.fresh_bool(nm)
+            if isinstance(cur, int):
+                return I.eng.fresh_int(nm)
+            if isinstance(cur, float):
+                return I.eng.fresh_real(nm)
+            if cur is None or isinstance(cur, (PList, tuple)):
+                # a schedule cached by an earlier step can only mention objects that were agents then: in the world where
+                # object 1 is already an agent, the order an earlier step was given (here: the reverse of creation order)
+                pool = [None, PList([objs[1], objs[0]])] if len(self.fields["agents"].items) == 2 else [None]
+                return pool[MD.pick(I, len(pool), f"value of the loop-carried local `{nm}` left by an earlier step (none / a schedule of an earlier step)")]
+            return cur
+
+        return typ
+
     def run_loop_modifies(I=None):
-        mods = {nm: None for nm in loop_locals(RUN)}
+        mods = {nm: carried(nm) for nm in loop_locals(RUN)}
         mods["self.currentTime"] = C.Int(lo=0)
         mods["self.trajectory"] = lambda I, env: MD.CountedList(_fresh_len(I, "len(trajectory)"), "trajectory")
         mods["self.actionSequence"] = lambda I, env: MD.CountedList(_fresh_len(I, "len(actionSequence)"), "actionSequence")
@@ -1000,7 +1028,7 @@ def _logging_simulator(log, schedule=None):
             return super().getProperties(obj, properties)
 
         def scheduleForAgents(self):
-            return schedule(self.agents) if schedule else self.agents
+            return schedule(list(self.agents), self.currentTime) if schedule else self.agents
 
     class Simulator(DummySimulator):
         def createSimulation(self, scene, **kwargs):
@@ -1041,22 +1069,31 @@ def replay_run_order(inputs, clause):
 
     import scenic
 
-    for reverse in (False, True):
+    policies = {
+        "creation order": None,
+        "reversed": lambda ags, t: list(reversed(ags)),
+        "rotating from step to step": lambda ags, t: ags[t % len(ags) :] + ags[: t % len(ags)],
+    }
+    for policy, fn in policies.items():
+        reverse = policy == "reversed"
         log = []
         builtins._pyvc_log = log
         sc = scenic.scenarioFromString(RUN_PROGRAM, scenario="Main")
         scene, _ = sc.generate()
-        sim = _logging_simulator(log, (lambda ags: list(reversed(ags))) if reverse else None).simulate(scene, maxSteps=3)
+        sim = _logging_simulator(log, fn).simulate(scene, maxSteps=3)
         steps = {}
         for e in log:
             t = e[2] if e[0] == "behavior" else e[1]
             steps.setdefault(t, []).append(e[0] if e[0] != "behavior" else "behavior:" + e[1])
-        order = ["ego", "other"][:: -1 if reverse else 1]
         for t in range(3):
+            order = ["ego", "other"] if fn is None else fn(["ego", "other"], t)
             got = [k for k in steps.get(t, []) if k != "getProperties"]
             want = ["compose", "record", "monitor"] + ["behavior:" + n for n in order] + ["executeActions", "simulator_step"]
             if got != want:
-                return f"time step {t} (schedule {'reversed' if reverse else 'creation order'}) ran {got}, documented order is {want}"
+                return f"time step {t} (schedule returned by the simulator interface: {policy}) ran {got}, documented order is {want}"
+            acts = [e for e in log if e[0] == "executeActions" and e[1] == t]
+            if acts and list(acts[0][4]) != order:
+                return f"time step {t} (schedule: {policy}): the action dictionary handed to executeActions lists the agents as {list(acts[0][4])}, this step's schedule is {order}"
         last = [k for k in steps.get(3, []) if k != "getProperties"]
         if last != ["compose", "record", "monitor"]:
             return f"the final step (step limit 3 reached) ran {last}; documented: scenarios, recording, monitors, then stop"
@@ -1177,7 +1214,7 @@ def replay_do_for(inputs, clause):
     import scenic
     from scenic.core.simulators import DummySimulator
 
-    for n, unit, ts in [(3, "steps", None), (1, "steps", None), (1.5, "seconds", 0.5), (2, "seconds", 1)]:
+    for n, unit, ts in [(3, "steps", None), (1, "steps", None), (1.5, "seconds", 0.5), (2, "seconds", 1), (2.5, "seconds", 1), (0.5, "seconds", 1), (1, "seconds", 0.4)]:
         src = (
             "behavior Sub():\n    while True:\n        take 1\n"
             f"behavior B():\n    take 7\n    do Sub() for {n} {unit}\n    take 9\n    take 10\n"
